@@ -100,10 +100,18 @@ def rule_filter_and_operators(ck, repo, R):
                'comparison operators and is_equal are wired to is_substructure with the length tests their meaning implies; different pattern '
                'components go to different target components')
     d = repo.func(f'{ISO}:Isomorphism._get_mapping')
-    keys = [n for n in ast.walk(d.node) if isinstance(n, ast.Assign) and src(n.targets[0]) == 'atoms']
-    ck.decide(len(keys) == 2 and all(src(k.value) == 'frozenset(mapping.values())' for k in keys), R, 'filter:key', [src(k.value) for k in keys],
-              f'automorphism filter keys are {[src(k.value) for k in keys]}; both branches must use frozenset(mapping.values())', file=d.file, line=d.lineno, func=d.qualname)
     seen_adds = [n for n in ast.walk(d.node) if isinstance(n, ast.Call) and src(n.func) == 'seen.add']
+    key_names = {a.args[0].id for a in seen_adds if a.args and isinstance(a.args[0], ast.Name)}
+    keys = [n for n in ast.walk(d.node) if isinstance(n, ast.Assign) and isinstance(n.targets[0], ast.Name) and n.targets[0].id in key_names]
+    keys += [a for a in seen_adds if a.args and not isinstance(a.args[0], ast.Name)]  # key built in place
+
+    def key_ok(v):
+        # frozenset(<yielded mapping>.values()): order-free set of image atoms
+        return isinstance(v, ast.Call) and src(v.func) == 'frozenset' and len(v.args) == 1 and isinstance(v.args[0], ast.Call) and \
+            isinstance(v.args[0].func, ast.Attribute) and v.args[0].func.attr == 'values' and isinstance(v.args[0].func.value, ast.Name)
+    vals = [k.value if isinstance(k, ast.Assign) else k.args[0] for k in keys]
+    ck.decide(len(vals) == 2 and all(key_ok(v) for v in vals), R, 'filter:key', [src(v) for v in vals],
+              f'automorphism filter keys are {[src(v) for v in vals]}; both branches must use frozenset(mapping.values())', file=d.file, line=d.lineno, func=d.qualname)
     ck.decide(len(seen_adds) == 2, R, 'filter:remember', len(seen_adds), 'the filter no longer records every yielded atom set', file=d.file, line=d.lineno)
     # the memory of the filter spans all assignments of pattern components to target components: no re-initialisation inside the permutations loop
     perm_loops = [n for n in ast.walk(d.node) if isinstance(n, ast.For) and 'permutations(' in src(n.iter)]
